@@ -22,7 +22,7 @@ type C13Params struct {
 }
 
 var c13Ops = []string{"select", "select-range", "insert-new", "insert-existing", "update-existing", "delete-existing", "update-none",
-	"txn-write", "refresh", "version", "changes-fwd", "changes-back", "vacuum", "reopen", "count"}
+	"txn-write", "refresh", "version", "changes-fwd", "changes-back", "vacuum", "reopen", "count", "txn-refresh-rollback"}
 
 func init() {
 	Register(&Family{Property: "C13", Name: "readonly", Gen: func(r *rand.Rand, tier string) interface{} {
@@ -149,7 +149,30 @@ func runC13(x *Exec) {
 					mustFail = existing >= 0
 					_, serr = ro.Exec(fmt.Sprintf("delete from %s where k=?", t), existing)
 				case "update-none":
+					mustFail = true // a write statement, whether or not a row matches
 					_, serr = ro.Exec(fmt.Sprintf("update %s set %s=? where k=?", t, mp.Cols[0]), 5, -31337)
+				case "txn-refresh-rollback":
+					// refused writes around a refresh inside one transaction: ROLLBACK has nothing to take back, in
+					// particular not the refresh
+					unchanged = false
+					ro.Exec("BEGIN")
+					_, w1 := ro.Exec(fmt.Sprintf("insert into %s(k) values (?)", t), 300000+op.Arg)
+					_, rerr := ro.Query("select s3db_refresh(?)", t)
+					mid, merr := ro.Query("select * from " + t)
+					_, w2 := ro.Exec(fmt.Sprintf("insert into %s(k) values (?)", t), 300001+op.Arg)
+					ro.Exec("ROLLBACK")
+					after, aerr := ro.Query("select * from " + t)
+					if !faulty {
+						x.Check()
+						if w1 == nil || w2 == nil {
+							x.Fail("C13-write-accepted", "an INSERT inside a transaction on a read-only table reported success")
+							return
+						}
+						if rerr == nil && merr == nil && aerr == nil && RowsString(after) != RowsString(mid) {
+							x.Fail("C13-rows-changed", "BEGIN; refused INSERT; s3db_refresh; refused INSERT; ROLLBACK on a read-only table: rows after the refresh %s, after ROLLBACK %s", RowsString(mid), RowsString(after))
+							return
+						}
+					}
 				case "txn-write":
 					mustFail = true
 					ro.Exec("BEGIN")
